@@ -127,6 +127,7 @@ structure Cl where
   doneEmitted : Bool := false
   kaTick : Option Nat := none                    -- next tick of the keep-alive ticker
   kaPinging : Bool := false
+  kaMissed : Bool := false                       -- a tick came while the keep-alive ping was outstanding
   kaAlive : Bool := true
   outs : List (Nat × Out) := []
   sampledState : CState := .disconnected
@@ -594,7 +595,7 @@ def fireDue (c : Cl) (d : Due) : Cl :=
   | .tx id _ k => (match c.getTx id with | some t => c.fireTx t k | none => c)
   | .kaTick _ =>
     let c := { c with kaTick := some (c.now + c.cfg.ka * 1000) }
-    if c.kaPinging then c
+    if c.kaPinging then { c with kaMissed := true }
     else ({ c with kaPinging := true }).apiPing "#keepalive" true
   | .rxPoll _ =>
     -- the read timed out: the loop looks at its context and reads again
@@ -615,9 +616,12 @@ def settleOne (c : Cl) (w : Wait) : Cl :=
       match w.kind with
       | .plain =>
         if w.call = "#keepalive" then
-          let c := { c with kaPinging := false }
-          if t.err = .ok ∨ t.err = .keepaliveStopped then c
-          else ({ c with kaAlive := false }).cancelGroup t.err
+          if t.err = .ok then
+            -- a tick that came meanwhile is not lost: the next PINGREQ goes out at once (while active)
+            if c.kaMissed ∧ c.st = .active ∧ c.alive then ({ c with kaMissed := false }).apiPing "#keepalive" true
+            else { c with kaPinging := false, kaMissed := false }
+          else if t.err = .keepaliveStopped then { c with kaPinging := false, kaMissed := false }
+          else ({ c with kaPinging := false, kaMissed := false, kaAlive := false }).cancelGroup t.err
         else if c.groupDone ∧ t.err ≠ c.interrupted then c.emit (.retEither w.call t.err c.interrupted)
         else c.emit (.ret w.call t.err)
       | .connect i =>
